@@ -310,6 +310,9 @@ func clipB(b []byte) []byte {
 
 type ctx struct {
 	r *common.Run
+	// basicOnly: skip the round-D interfaces (Append, Chain*, Reuse, chain round trip); set for the
+	// repeated chunkings of the exhaustive enumeration, where the first chunking already ran them
+	basicOnly bool
 }
 
 func obsBytes(b []byte, err error) string {
@@ -336,6 +339,9 @@ func (c *ctx) whole(s []byte, sizes []int, cap int, class string) {
 	}{{"estr", jid.Escape, refEscape}, {"ustr", jid.Unescape, refUnescape}} {
 		var first []byte
 		for k, it := range interfaces(sizes, cap) {
+			if c.basicOnly && k >= 5 {
+				break
+			}
 			out, err := it.f(tr.t, s)
 			line := tr.op + " " + hs
 			r.Line(line, obsBytes(out, err))
@@ -360,7 +366,9 @@ func (c *ctx) whole(s []byte, sizes []int, cap int, class string) {
 			}
 		}
 	}
-	c.chainRoundTrip(s, sizes)
+	if !c.basicOnly {
+		c.chainRoundTrip(s, sizes)
+	}
 	// round trip and cleanliness on the real code
 	e, err := safe(func() ([]byte, error) { return []byte(jid.Escape.String(string(s))), nil })
 	if err == nil {
@@ -551,9 +559,11 @@ func Run(r *common.Run) error {
 			if n <= r.Pick(4, 5) {
 				c.steps(s, []int{0, 1, 2, 3, 4, 5, 7})
 			}
-			for _, sz := range [][]int{{1}, {2}, {3}, {1, 2}} {
+			for k, sz := range [][]int{{1}, {2}, {3}, {1, 2}} {
+				c.basicOnly = k > 0 && k != n%4
 				c.whole(s, sz, 3+len(sz), "exhaustive")
 			}
+			c.basicOnly = false
 		})
 	}
 	r.Exhaustive = append(r.Exhaustive, fmt.Sprintf("all strings of length <= %d over %q x caps x atEOF x interfaces", maxLen, alphabet))
